@@ -287,3 +287,88 @@ def rule_subst_order(ctx):
             res.violate(ikey, "a variable with %d target(s) leads to %s, expected %s" % (count, got, want), f["sp"]["file"], f["sp"]["line"])
     res.require_floor(6)
     return res
+
+
+def rule_pmoves(ctx):
+    """R-PMOVES: the generic parallel-moves algorithm instantiated at each backend, over all small assignment maps"""
+    import itertools
+    from ..interp import SetVal, MapVal
+    res = RuleResult("R-PMOVES", "simultaneous-assignment semantics of axcut2backend::parallel_moves, decided for every assignment map over a "
+                     "small set of temporaries: the generic algorithm (spanning forest, cycle breaking through the scratch register / "
+                     "reserved slot, move order) is folded from its MIR at each backend's instance into the move list it emits, the list "
+                     "is run on the symbolic machine, and every target must end up with the *old* value of its source while every "
+                     "temporary that is not a target keeps its value. Quick: all 64 maps over 3 temporaries (self-moves, chains, "
+                     "fan-out, cycles, cycles with tails) in every register/spill placement; thorough: all 625 maps over 4 temporaries")
+    key = "axcut2backend::parallel_moves::parallel_moves"
+    if key not in ctx.fx.fns:
+        raise AnalysisError("R-PMOVES: %s not found" % key)
+    f = ctx.fx.fns[key]
+    thorough = ctx.tier == "thorough"
+    for b in ("x86_64", "aarch64", "rv64"):
+        tg = Target(ctx, b)
+        reg_num = tg.consts["REGISTER_NUM"]["val"]
+        nreg_pos = reg_num - tg.reserved            # environment positions held in registers
+        k = 4 if thorough else 3
+        if b == "rv64":
+            placements = [tuple(range(1, 1 + 2 * k, 2))]
+        else:
+            # positions (Snd temporaries of consecutive variables) chosen so that every register/spill pattern occurs
+            regs = [1, 3, 5, 7]
+            spills = [nreg_pos + 1, nreg_pos + 3, nreg_pos + 5, nreg_pos + 7]
+            placements = []
+            for pat in itertools.product("rs", repeat=k):
+                ri, si = iter(regs), iter(spills)
+                placements.append(tuple(next(ri) if c == "r" else next(si) for c in pat))
+            if not thorough:
+                placements = [p for i, p in enumerate(placements)]
+        n = 0
+        bad = []
+        for pos in placements:
+            T = [temporary_at(tg, p) for p in pos]
+            locs = [tg.loc_of(t) for t in T]
+            for srcs in itertools.product(range(-1, k), repeat=k):
+                # target i receives the value of temporary srcs[i] (-1: not a target)
+                amap = {}
+                for i, sidx in enumerate(srcs):
+                    if sidx >= 0:
+                        amap.setdefault(sidx, []).append(i)
+                m = MapVal([(T[sidx], SetVal([T[i] for i in tl])) for sidx, tl in sorted(amap.items())])
+                _, outs = backend.fold(ctx, key, [m, Vec()], type_env={"Backend": tg.crate + "::Backend"}, max_steps=200000)
+                outs = [o for o in outs if not getattr(o, "diverged", None)]
+                n += 1
+                if len(outs) != 1 or not isinstance(outs[0].final.locals[2], Vec):
+                    bad.append((pos, srcs, ["the algorithm could not be folded for this map (%d paths)" % len(outs)], []))
+                    continue
+                codes = outs[0].final.locals[2].items
+                mach, init = _init_machine(b, set(locs))
+                isa.run(ctx, b, codes, mach)
+                pr = list(mach.errors)
+                for i, l in enumerate(locs):
+                    want = init[locs[srcs[i]]] if srcs[i] >= 0 else init[l]
+                    got = _read_loc(mach, l)
+                    if got != want:
+                        pr.append("%s ends with %s, expected the old value of %s" % (_pl(l), isa.show(got), _pl(locs[srcs[i]] if srcs[i] >= 0 else l)))
+                sp = isa.SP[b]
+                if mach.r(sp) != ("addr", "sp0", 0):
+                    pr.append("stack pointer changed")
+                if [e for e in mach.events if e[0] in ("call", "ret", "jmp", "jcc")]:
+                    pr.append("control transfer in a move sequence")
+                if pr:
+                    bad.append((pos, srcs, pr, codes))
+        ikey = b
+        if bad:
+            pos, srcs, pr, codes = bad[0]
+            locs = [tg.loc_of(temporary_at(tg, p)) for p in pos]
+            desc = ", ".join("%s := %s" % (_pl(locs[i]), _pl(locs[s])) for i, s in enumerate(srcs) if s >= 0)
+            res.inst(ikey, f["sp"]["file"], f["sp"]["line"], "violation", "%d of %d maps wrong" % (len(bad), n))
+            res.violate(ikey, "%s: parallel assignment {%s}: %s  [emitted: %s; %d of %d maps wrong]" %
+                        (b, desc, "; ".join(pr[:3]), " | ".join(repr(c) for c in codes if getattr(c, "variant", "") != "COMMENT")[:300], len(bad), n),
+                        f["sp"]["file"], f["sp"]["line"])
+        else:
+            res.inst(ikey, f["sp"]["file"], f["sp"]["line"], "ok", "%d assignment maps over %d temporaries in %d placements" % (n, k, len(placements)))
+    res.require_floor(3)
+    return res
+
+
+def _pl(l):
+    return l[1] if l[0] == "reg" else "[sp%+d]" % l[1][1]
